@@ -102,6 +102,7 @@ CheckPV(ev, name, pv, v) ==
       wantInd == [i \in 1..n |-> es[i].ind]
       missing == IF pv.nent # n THEN {}
                  ELSE {i \in 1..n : \/ ~(OwnDetailWords(es[i].n) \subseteq SeqToSet(pv.words[i]))
+                                    \/ \E d \in OwnDetailStrs(es[i].n) : ~Occurs(d, pv.toks[i])
                                     \/ (OwnDetailLit(es[i].n) # "" /\ OwnDetailLit(es[i].n) \notin SeqToSet(pv.lits[i]))}
   IN
   /\ IF pv.starts THEN TRUE
@@ -180,6 +181,9 @@ ReportBuild(ev, new, tn) ==
      /\ IF tn.h \/ tn.dv THEN TRUE
         ELSE Chk(RSkel(o.tree) = MSkel(v), ev, "skel", "verdict", PropsFor({"C10"}, v), MSkel(v), RSkel(o.tree))
      /\ IF tn.h \/ tn.dv THEN TRUE ELSE Chk(o.tree = TreeOf(v, reg), ev, "tree", "conf", {}, TreeOf(v, reg), o.tree)
+     \* conformance of the encoders: the wire message of the value as Enc predicts it
+     /\ IF tn.h \/ tn.dv THEN TRUE
+        ELSE LET w == WAbs(Enc(v, reg, D)) IN Chk(o.wire = w, ev, "wire", "conf", {}, w, o.wire)
      \* (values are predicted for regular strings; for hostile strings only the
      \* predicates of ReportOuts and the relations of ReportHop give verdicts)
      /\ IF tn.h \/ tn.dv THEN TRUE
@@ -189,8 +193,14 @@ ReportBuild(ev, new, tn) ==
         ELSE LET spec == IsSpecVec(v, new, reg) IN
              Chk(o.is = spec, ev, "is", "verdict", PropsFor({"C08"}, v), spec, o.is)
      \* IsAny is the disjunction; Is(nil, r) is r == nil
+     \* (also against the references held by the other slots only, in both orders:
+     \* there no reference is the value itself)
      /\ LET any == IF \E i \in 1..Len(o.is) : o.is[i] = "T" THEN "T" ELSE "F"
-            want == [any |-> any, none |-> "F", nilL |-> "F", nilR |-> "F", nilnil |-> "T", anyNil |-> "F"]
+            off == Len(Concat([i \in 1..(st.dst - 1) |-> AllNodes(new[i])]))
+            own == (off + 1)..(off + Len(AllNodes(v)))
+            anyO == IF \E i \in (1..Len(o.is)) \ own : o.is[i] = "T" THEN "T" ELSE "F"
+            want == [any |-> any, none |-> "F", nilL |-> "F", nilR |-> "F", nilnil |-> "T", anyNil |-> "F",
+                     anyOther |-> anyO, anyOtherRev |-> anyO]
         IN Chk(o.isx = want, ev, "isx", "verdict", {"C08"}, want, o.isx)
 
 \* where two recorded trees first diverge, bottom-up: families (at the origin)
